@@ -44,8 +44,8 @@ def run(rep, idx, tier):
     # ---- C02.4 / C02.5 / C02.8 ---------------------------------------------------------------------------
     tables_and_cursor(rep, idx, "MemoryMap.add_resource", "_resources", "resource", named=True)
     tables_and_cursor(rep, idx, "MemoryMap.add_window", "_windows", "window", named=False)
-    compute_range(rep, idx)
-    alignment(rep, idx)
+    flat = compute_range(rep, idx)
+    alignment(rep, idx, flat)
     # ---- C02.6 half-open intervals -----------------------------------------------------------------------
     intervals(rep, idx)
     # ---- C02.7 ordered reporting ----------------------------------------------------------------------------
@@ -151,33 +151,122 @@ def tables_and_cursor(rep, idx, spec, table, obj, named):
     rep.check(ok, "C02.4", site, "the call returns the assigned range", f"returns {ir.show(rets[0])[:100] if rets else None}", nontrivial=False)
 
 
+def helper_owns_placement(idx):
+    """The placement helper still has the interface of the pinned tree: (addr, size, step, *, alignment) -> range.  When a
+    maintainer has split or merged it, the rules read the API functions with their helpers opened instead."""
+    try:
+        fi = idx.find_func("MemoryMap._compute_addr_range")
+    except Exception:
+        return False
+    return {"addr", "size", "alignment"} <= set(fi.params)
+
+
 def compute_range(rep, idx):
-    c = get_fn(idx, "MemoryMap._compute_addr_range", no_inline=("_align_up",))
+    """-> {api function: effective alignment expression} when the flattened view was used, else None."""
+    if helper_owns_placement(idx):
+        c = get_fn(idx, "MemoryMap._compute_addr_range", no_inline=("_align_up",))
+        rep.analysed(c.fi.site)
+        rets = [c.norm(v) for v, gen, ln in c.t.returns]
+        if len(rets) != 1 or rets[0][0] != 'call' or rets[0][1] != ('name', 'range'):
+            rep.unk("C02.5", c.fi.site, "returned range", f"returns {[ir.show(r)[:80] for r in rets]}")
+            return None
+        fg = apirules.graph(idx, c.fi)
+        ret_nodes = [n.id for n in fg.g.nodes if n.kind == "stmt" and isinstance(n.ast, ast.Return)]
+        range_rules(rep, idx, c, fg, rets[0], ret_nodes, ('name', 'alignment'), ('name', 'size'), "helper")
+        stores_addr = [n for n in ast.walk(c.fi.node) if isinstance(n, ast.Name) and n.id == "addr" and isinstance(n.ctx, ast.Store)]
+        rep.check(len(stores_addr) <= 1, "C02.5", c.fi.site, "an explicit address is honoured exactly (addr is only assigned on the implicit branch)",
+                  f"{len(stores_addr)} assignment(s) to addr")
+        return None
+    # flattened view: every private helper of the API function is opened in place; the range is what is inserted
+    from ..core import canon
+    out = {}
+    for spec, obj in (("MemoryMap.add_resource", "resource"), ("MemoryMap.add_window", "window")):
+        fi = canon.flatten_function(idx, idx.find_func(spec), exclude=("_align_up",))
+        fi.site = fi.site                                   # same site: findings name the API function
+        c = flat_ctx(idx, fi)
+        rep.analysed(c.fi.site)
+        ins = [c.norm(e) for e, gen, dsl_, ln in c.t.calls if e[0] == 'call' and c.norm(e)[1] == c.parse("self._ranges.insert")]
+        if len(ins) != 1 or len(ins[0][2]) != 2 or ins[0][2][0][0] != 'call' or ins[0][2][0][1] != ('name', 'range'):
+            rep.unk("C02.5", c.fi.site, "inserted range", f"self._ranges.insert(...) calls: {[ir.show(x)[:100] for x in ins]} "
+                    f"(helpers opened: {getattr(fi, 'flattened', [])})")
+            continue
+        R = ins[0][2][0]
+        # the effective alignment is the second argument of the _align_up() that places the cursor
+        A = None
+        for x in ir.walk(R[2][0]):
+            if x[0] == 'call' and x[1] == c.parse("self._align_up") and len(x[2]) == 2 and x[2][0] == c.parse("self._next_addr"):
+                A = x[2][1]
+        if A is None:
+            rep.form(False, "C02.5", c.fi.site, "range starts at the explicit address unchanged, or at the cursor aligned up to the effective alignment",
+                     f"start is {ir.show(R[2][0])[:140]}: no self._align_up(self._next_addr, <alignment>) in it",
+                     wrong=None if R[2][0] != ('name', 'addr') else "the implicit cursor is never aligned")
+            continue
+        fg = FlatGraph(idx, fi)
+        ins_nodes = [n.id for n in fg.g.nodes if n.kind == "stmt" and "_ranges.insert" in fg.text(n.id)]
+        size = ('name', 'size') if obj == "resource" else None
+        range_rules(rep, idx, c, fg, R, ins_nodes, A, size, "flat")
+        out[spec] = A
+    return out
+
+
+_FLAT = {}
+
+
+def flat_ctx(idx, fi):
+    from .common import CtorCtx
+    key = (id(idx), fi.site, 'flat')
+    if key not in _FLAT:
+        _FLAT[key] = CtorCtx(idx, fi, ("_align_up",))
+    return _FLAT[key]
+
+
+def FlatGraph(idx, fi):
+    key = (id(idx), fi.site, 'flatgraph')
+    if key not in _FLAT:
+        _FLAT[key] = apirules.FnGraph(idx, fi)
+    return _FLAT[key]
+
+
+def range_rules(rep, idx, c, fg, R, ret_nodes, A, SIZE, view):
+    """The placed range R = range(start, stop[, step]): its form, and the tests that dominate the node(s) handing it on."""
     fi = c.fi
     site = fi.site
-    rep.analysed(site)
-    rets = [c.norm(v) for v, gen, ln in c.t.returns]
-    if len(rets) != 1 or rets[0][0] != 'call' or rets[0][1] != ('name', 'range'):
-        rep.unk("C02.5", site, "returned range", f"returns {[ir.show(r)[:80] for r in rets]}")
-        return
-    R = rets[0]
     args = R[2]
-    want_addr = c.parse("phi(addr is not None, addr, self._align_up(self._next_addr, alignment))")
-    want_addr = ('phi', c.parse("addr is not None"), ('name', 'addr'), c.parse("self._align_up(self._next_addr, alignment)"))
-    alt_addr = ('phi', c.parse("addr is None"), c.parse("self._align_up(self._next_addr, alignment)"), ('name', 'addr'))
+    al = ('call', c.parse("self._align_up"), (c.parse("self._next_addr"), A), ())
+    want_addr = ('phi', c.parse("addr is not None"), ('name', 'addr'), al)
+    alt_addr = ('phi', c.parse("addr is None"), al, ('name', 'addr'))
     a_ok = len(args) >= 2 and args[0] in (c.norm(want_addr), c.norm(alt_addr))
     rep.check(a_ok, "C02.5", site, "range starts at the explicit address unchanged, or at the cursor aligned up to the effective alignment",
               f"start is {ir.show(args[0])[:140] if args else None}")
-    size = c.parse("self._align_up(max(size, 1), alignment)")
-    s_ok = len(args) >= 2 and args[1] == c.norm(('bin', '+', args[0], size))
+    size = None
+    if len(args) >= 2 and SIZE is not None:
+        size = c.norm(('call', c.parse("self._align_up"), (('call', ('name', 'max'), (SIZE, ('const', 1)), ()), A), ()))
+        s_ok = args[1] == c.norm(('bin', '+', args[0], size))
+    elif len(args) >= 2:
+        # a window: the span is derived from the window (C03.2 checks it); here: stop = start + _align_up(max(S, 1), A) for some S
+        s_ok = False
+        for x in ir.walk(args[1]):
+            if x[0] == 'call' and x[1] == c.parse("self._align_up") and len(x[2]) == 2 and x[2][1] == A and x[2][0] != c.parse("self._next_addr") and \
+                    x[2][0][0] == 'call' and x[2][0][1] == ('name', 'max') and ('const', 1) in x[2][0][2] and \
+                    args[1] == c.norm(('bin', '+', args[0], x)):
+                s_ok, size = True, x
+    else:
+        s_ok = False
     rep.check(s_ok, "C02.5", site, "range covers max(size, 1) rounded up to the effective alignment",
               f"stop is {ir.show(args[1])[:160] if len(args) > 1 else None}")
-    rep.check(len(args) == 3 and args[2] == ('name', 'step') or len(args) == 2, "C02.5", site, "the step is the caller's ratio",
-              f"step is {ir.show(args[2]) if len(args) > 2 else 'absent'}", nontrivial=False)
-    # bounds test and overlap test dominate the return, each raising on its failing edge
-    fg = apirules.graph(idx, fi)
+    if view == "helper":
+        rep.check(len(args) == 3 and args[2] == ('name', 'step') or len(args) == 2, "C02.5", site, "the step is the caller's ratio",
+                  f"step is {ir.show(args[2]) if len(args) > 2 else 'absent'}", nontrivial=False)
+    else:
+        ratio = [c.norm(c.parse(t)) for t in ("1 if sparse else self.data_width // window.data_width",
+                                              "self.data_width // window.data_width if not sparse else 1")]
+        st_ok = len(args) == 2 or args[2] == ('const', 1) if SIZE is not None else len(args) == 3 and args[2] in ratio
+        rep.form(st_ok, "C02.5", site, "the step is 1 for a resource and the width ratio for a window",
+                 f"step is {ir.show(args[2]) if len(args) > 2 else 'absent'}", nontrivial=False)
+    if size is None:
+        size = c.parse("self._align_up(max(size, 1), alignment)")
+    # bounds test and overlap test dominate the hand-over, each raising on its failing edge
     g = fg.g
-    ret_nodes = [n.id for n in g.nodes if n.kind == "stmt" and isinstance(n.ast, ast.Return)]
     dom = g.dominators()
     # conditions with local aliases substituted (from the symbolic walk), matched to CFG test nodes by line
     sym = {}
@@ -238,22 +327,27 @@ def compute_range(rep, idx):
             rep.ok("C02.6", site, "bounds comparison is strict: U > X (exclusive upper bound against exclusive limit)", "addr + size > 1 << addr_width")
     rep.check(bool(over_ok), "C02.5", site, "every returned range passed the overlap test (non-empty overlaps raises)",
               "no dominating test of self._ranges.overlaps(<the range>) with a raising edge for the non-empty case")
-    # explicit address: validated, never reassigned
-    stores_addr = [n for n in ast.walk(fi.node) if isinstance(n, ast.Name) and n.id == "addr" and isinstance(n.ctx, ast.Store)]
-    lines_in_else = True
-    rep.check(len(stores_addr) <= 1, "C02.5", site, "an explicit address is honoured exactly (addr is only assigned on the implicit branch)",
-              f"{len(stores_addr)} assignment(s) to addr")
 
 
-def alignment(rep, idx):
+def alignment(rep, idx, flat=None):
     c = get_fn(idx, "MemoryMap.add_resource")
     site = c.fi.site
     calls = [x for x, gen, ln in c.calls_named("_compute_addr_range")]
     eff = ('phi', c.parse("alignment is not None"), c.parse("max(alignment, self.alignment)"), c.parse("self.alignment"))
     eff2 = ('phi', c.parse("alignment is None"), c.parse("self.alignment"), c.parse("max(alignment, self.alignment)"))
-    ok = bool(calls) and all(kwarg(x, 'alignment') in (c.norm(eff), c.norm(eff2)) for x in calls)
-    rep.check(ok, "C02.8", site, "effective alignment == max(requested, map alignment), or the map alignment when none is requested",
-              f"_compute_addr_range(alignment={ir.show(kwarg(calls[0], 'alignment'))[:120] if calls else None})")
+    if flat is not None:
+        A = flat.get("MemoryMap.add_resource")
+        if A is None:
+            rep.unk("C02.8", site, "effective alignment == max(requested, map alignment), or the map alignment when none is requested",
+                    "the placement of add_resource() was not recognised in the flattened view")
+        else:
+            rep.check(A in (c.norm(eff), c.norm(eff2)), "C02.8", site,
+                      "effective alignment == max(requested, map alignment), or the map alignment when none is requested",
+                      f"the cursor is aligned to {ir.show(A)[:120]}")
+    else:
+        ok = bool(calls) and all(kwarg(x, 'alignment') in (c.norm(eff), c.norm(eff2)) for x in calls)
+        rep.check(ok, "C02.8", site, "effective alignment == max(requested, map alignment), or the map alignment when none is requested",
+                  f"_compute_addr_range(alignment={ir.show(kwarg(calls[0], 'alignment'))[:120] if calls else None})")
     a = get_fn(idx, "MemoryMap.align_to", no_inline=("_align_up",))
     st = a.stores.get("self._next_addr")
     ok = st is not None and st[0] == a.parse("self._align_up(self._next_addr, max(alignment, self.alignment))")
@@ -264,6 +358,15 @@ def alignment(rep, idx):
               nontrivial=False)
     w = get_fn(idx, "MemoryMap.add_window")
     calls = [x for x, gen, ln in w.calls_named("_compute_addr_range")]
+    if flat is not None:
+        A = flat.get("MemoryMap.add_window")
+        if A is None:
+            rep.unk("C02.8", w.fi.site, "window alignment is at least the map alignment (max(self.alignment, ...))",
+                    "the placement of add_window() was not recognised in the flattened view")
+        else:
+            rep.check(kw_is_max_with_map_alignment(w, A), "C02.8", w.fi.site, "window alignment is at least the map alignment (max(self.alignment, ...))",
+                      f"the cursor is aligned to {ir.show(A)[:120]}")
+        return
     ok = bool(calls) and all(kw_is_max_with_map_alignment(w, kwarg(x, 'alignment')) for x in calls)
     rep.check(ok, "C02.8", w.fi.site, "window alignment is at least the map alignment (max(self.alignment, ...))",
               f"alignment={ir.show(kwarg(calls[0], 'alignment'))[:120] if calls else None}")
@@ -460,7 +563,16 @@ def legal_placements(rep, idx, rule):
         # the bounds test (mentions the map's address width) and the overlap query are documented refusals of their own
         if a[0] == 'call' and a[1][0] == 'attr' and a[1][2] == 'overlaps':
             return True
-        return any(x == ('attr', ('name', 'self'), '_addr_width') or x == ('attr', ('name', 'self'), 'addr_width') for x in ir.walk(a))
+        if any(x == ('attr', ('name', 'self'), '_addr_width') or x == ('attr', ('name', 'self'), 'addr_width') for x in ir.walk(a)):
+            return True
+        # type / sign validation of the derived window span (2**window.addr_width // ratio): the size checks of the placement
+        # helper applied to a quantity that is a non-negative integer by construction -- they never fire
+        span = any(x == ('attr', ('name', 'window'), 'addr_width') for x in ir.walk(a))
+        if span and a[0] == 'call' and a[1] == ('name', 'isinstance') and len(a[2]) == 2 and a[2][1] == ('name', 'int'):
+            return True
+        if span and a[0] == 'cmp' and a[1] == '<' and a[3] == ('const', 0):
+            return True
+        return False
     glue.arith_refusal_atoms(rep, rule, idx, "MemoryMap._compute_addr_range", ["addr % (1 << self.alignment) != 0"], allow_if=bounds,
                              what="an explicit address is only required to be a multiple of the map's own alignment; sizes and bounds as documented")
     glue.arith_refusal_atoms(rep, rule, idx, "MemoryMap.add_resource", ["addr % (1 << self.alignment) != 0"], allow_if=bounds,
@@ -468,6 +580,8 @@ def legal_placements(rep, idx, rule):
     glue.arith_refusal_atoms(rep, rule, idx, "MemoryMap.add_window",
                              ["self.data_width % window.data_width != 0", "ratio & (ratio - 1) != 0",
                               "(1 << window.alignment) < ratio",
+                              # the placement helper's test of an explicit address, should it be opened in place
+                              "addr % (1 << self.alignment) != 0",
                               # the same two tests written on the dense ratio directly (under `if not sparse`)
                               "(self.data_width // window.data_width) & ((self.data_width // window.data_width) - 1) != 0",
                               "(1 << window.alignment) < (self.data_width // window.data_width)"],
